@@ -480,6 +480,19 @@ int janet_verify(JanetFuncDef *def) {
         }
     }
 
+    /* Verify the symbol map: debug/stack indexes the stack frame and the function's
+     * environments with these values. */
+    for (i = 0; i < def->symbolmap_length; i++) {
+        const JanetSymbolMap *sm = def->symbolmap + i;
+        if (sm->birth_pc == UINT32_MAX) {
+            /* Upvalue entry: death_pc is an environment index */
+            if (sm->death_pc >= (uint32_t) def->environments_length) return 10;
+        } else {
+            if (sm->slot_index >= (uint32_t) sc) return 10;
+            if (sm->birth_pc > sm->death_pc || sm->death_pc > (uint32_t) def->bytecode_length) return 10;
+        }
+    }
+
     /* Verify last instruction is either a jump, return, return-nil, or tailcall. Eventually,
      * some real flow analysis would be ideal, but this should be very effective. Will completely
      * prevent running over the end of bytecode. However, valid functions with dead code will
